@@ -29,6 +29,7 @@ def run(ctx):
     c05.ordinal_rule(ctx, "C06.N")
     c05.reader_ownership(ctx, "C06.N")
     siblings_rule(ctx)
+    end_rule(ctx)
     consumers_rule(ctx)
 
 
@@ -142,11 +143,15 @@ def accessor_rule(ctx):
                 e = fs.get(field)
                 ok = False
                 got = "<missing>"
-                if e is not None and e.get("k") == "mcall":
-                    inner = e["recv"]
-                    got = "%s(%s)" % (cname(e), cname(inner) if inner.get("k") == "mcall" else show(fv.term(inner)))
-                    if cname(e).split("::")[-1] in conv + ("into", "to_owned", "clone") and inner.get("k") == "mcall":
-                        ic = cname(inner)
+                if e is not None:
+                    t = fv.term(e)
+                    got = show(t)
+                    n_conv = 0
+                    while t[0] == "call" and len(t) == 3 and t[1].split("::")[-1] in conv + ("into", "to_owned", "clone", "from"):
+                        t = t[2]
+                        n_conv += 1
+                    if t[0] == "call" and n_conv >= 1:
+                        ic = t[1]
                         fmtname = ic.split("::")[2] if ic.startswith("bio::io::") else "?"
                         ok = ic in ("bio::io::fasta::Record::%s" % want, "bio::io::fastq::Record::%s" % want)
                 ctx.check("C06.A", "next:%s:%s" % (fmtname if fmtname != "?" else i, field), ok,
@@ -227,6 +232,7 @@ def reader_deps(ctx, prop):
     accessor_rule(d)
     c05.ordinal_rule(d, "C06.N")
     c05.reader_ownership(d, "C06.N")
+    end_rule(d)
 
 
 
@@ -254,3 +260,41 @@ def consumers_rule(ctx):
         if fv is not None:
             rule_taken_reaches(dep(ctx, "C06", "C10"), "C10.I", fv, who,
                                lambda n: n.get("k") == "for" and "MinimiserGenerator<" in n.get("iter_ty", ""), "run loop")
+
+
+
+def end_rule(ctx):
+    """Sequences::next yields None exactly when the underlying bio record iterator is exhausted; a record the parser
+    rejects is not turned into an end of input (workers sharing the reader would each see a different 'end')."""
+    fv = ctx.need("C06.E", c05.NEXT)
+    if fv is None:
+        return
+    from ..core import sym_paths
+
+    def is_arm(t):
+        return t[0] == "arm"
+
+    def is_take(t):
+        return t[0] == "iflet" and t[1][0] == "ptstruct" and t[1][1].endswith("::Some") and t[2][0] == "call" \
+            and t[2][1].endswith("Iterator::next") and contains(t[2], lambda s_: s_[0] == "local" or s_[0] == "field")
+    nn = ns = 0
+    bad = None
+    for sp in sym_paths(fv, fv.body):
+        res = sp.ret if sp.ret is not None else sp.value
+        conds = [(t, pol, n) for t, pol, n in sp.conds if not is_arm(t)]
+        if res is not None and some_of(res) is not None:
+            ns += 1
+            if not any(is_take(t) and pol for t, pol, n in conds):
+                bad = bad or (sp, "a path returns a record without having taken one from the parser")
+            continue
+        nn += 1
+        extra = [(t, pol, n) for t, pol, n in conds if not (is_take(t) and not pol)]
+        if extra or not conds:
+            t, pol, n = extra[0] if extra else (("none",), True, None)
+            bad = bad or (sp, "a path returns None under `%s` = %s: the end of the records is signalled although the parser "
+                              "still delivered an item (e.g. a damaged record is swallowed as end of input — each worker "
+                              "sharing the reader then stops at a different place and the run reports success)"
+                          % (show(t), pol))
+    ctx.check("C06.E", "next:none_only_at_end", bad is None and nn >= 2 and ns >= 2,
+              "None is returned on %d path(s), each exactly when the bio iterator returned None; %d path(s) return a record"
+              % (nn, ns), bad[1] if bad else "paths of next(): %d None, %d Some (expected >= 2 each)" % (nn, ns), fv.fn["sp"])
